@@ -987,11 +987,16 @@ func runBuild(v jmap, rng *rand.Rand, r *result, sess *packet.Session) {
 		}()
 		for _, h := range hist[1:] {
 			r.Steps++
-			if !b.step(h.(map[string]interface{})) {
+			hm := h.(map[string]interface{})
+			if jstr(hm, "a") == "rewrite" {
+				b.rewrite(hm)
+				continue
+			}
+			if !b.step(hm) {
 				return
 			}
 		}
-		if jstr(v, "final") == "done" {
+		if f := jstr(v, "final"); f == "done" || f == "rewritten" {
 			b.finalCheck(jstr(v, "classify"))
 		}
 	}()
@@ -1014,7 +1019,16 @@ func buildMode(vecs []jmap, out string, k int, seed int64) {
 			s := seed*1000003 + int64(id)*131 + int64(inst)
 			r := &result{ID: id, Inst: inst, Seed: s, Part: jstr(v, "part")}
 			rng := rand.New(rand.NewSource(s))
-			if r.Part == "dhcp" {
+			if r.Part == "alias" {
+				func() {
+					defer func() {
+						if x := recover(); x != nil {
+							r.add("prop", "C03:alias.panic", "%s panicked with aliased arguments: %v", r.Func, x)
+						}
+					}()
+					runAliasVec(v, rng, r)
+				}()
+			} else if r.Part == "dhcp" {
 				func() {
 					defer func() {
 						if x := recover(); x != nil {
